@@ -653,6 +653,7 @@ def observe(W, x, st, devs, pools, new):
             e['part'] = item_info(W, d._part)
             e['out'] = item_info(W, d._output)
             e['waiting_ds'] = bool(d._waiting_for_downstream_space)
+            e['wait_since'] = None if d._waiting_for_part_since is None else to_ticks(d._waiting_for_part_since)
             e['cycle'] = to_ticks(d._cycle_time)
         if k == 3:
             e['shut'] = bool(d._is_shut_down)
